@@ -127,19 +127,20 @@ func mkSeqPathScenario(raw json.RawMessage) (explore.Body, error) {
 
 func runC03(ctx *core.Ctx, pool *par.Pool) {
 	cfgs := []pagedrv.Cfg{pagedrv.CfgA, pagedrv.CfgC}
-	depth := 7
+	depth, seedDepth := 6, 5
 	if !ctx.Quick() {
 		cfgs = []pagedrv.Cfg{pagedrv.CfgA, pagedrv.CfgB, pagedrv.CfgC, pagedrv.CfgD}
-		depth = 10
-		ctx.SetBudget(25 * 60 * 1e9)
+		depth, seedDepth = 9, 8
+		ctx.SetBudget(28 * 60 * 1e9)
 	} else {
-		ctx.SetBudget(100 * 1e9)
+		ctx.SetBudget(115 * 1e9)
 	}
 	total := xstate.Stats{}
 	var flushPaths []SeqPathParams
 	flushSig := map[string]bool{}
-	for _, cfg := range cfgs {
-		st := xstate.BFS(ctx, pool, xstate.Spec{Cfg: cfg, Alphabet: c03Alphabet(cfg, ctx.Quick()), MaxDepth: depth,
+	for _, run := range plan(cfgs, []seed{seedTwo, seedWAL, seedFrag}, depth, seedDepth) {
+		cfg := run.Cfg
+		st := xstate.BFS(ctx, pool, xstate.Spec{Cfg: cfg, Seed: run.Seed.Ops, Alphabet: c03Alphabet(cfg, ctx.Quick()), MaxDepth: run.Depth,
 			OnTransition: func(from *xstate.Node, s *xstate.Succ, isNew bool, _ *xstate.Node) {
 				if isNew && from.Depth >= 3 {
 					ctx.AddSample(map[string]interface{}{"cfg": cfg.Name, "history": pagedrv.PathString(append(from.Path(), s.Op))})
@@ -166,8 +167,7 @@ func runC03(ctx *core.Ctx, pool *par.Pool) {
 			}})
 		total.States += st.States
 		total.Transitions += st.Transitions
-		ctx.Set("depth_"+cfg.Name, st.Depth)
-		ctx.Set("closed_"+cfg.Name, st.Closed)
+		ctx.Set("depth_"+run.name(), st.Depth)
 	}
 	// (iii) wide histories
 	for _, cfg := range []pagedrv.Cfg{pagedrv.CfgC, pagedrv.CfgE} {
